@@ -566,6 +566,12 @@ class PyExec:
         if isinstance(e, ast.Subscript):
             out = []
             for (p, base) in self._eval(e.value, env, pc, fname, depth):
+                if isinstance(base, TupleRec) and isinstance(e.slice, ast.Slice):
+                    lo = ast.literal_eval(e.slice.lower) if e.slice.lower is not None else None
+                    hi = ast.literal_eval(e.slice.upper) if e.slice.upper is not None else None
+                    names = base.order[lo:hi]
+                    out.append((p, TupleRec({k: base.fields[k] for k in names}, names)))
+                    continue
                 if isinstance(base, Record):
                     key = ast.literal_eval(e.slice)
                     if key not in base.fields:
@@ -588,6 +594,18 @@ class PyExec:
             return out
         if isinstance(e, ast.Dict) and not e.keys:
             return [(pc, SymDict())]
+        if isinstance(e, ast.Dict) and all(isinstance(k, ast.Constant) and isinstance(k.value, str) for k in e.keys):
+            # a dict literal with constant string keys: a record
+            res = [(pc, {})]
+            for k, v in zip(e.keys, e.values):
+                nxt = []
+                for (p, acc) in res:
+                    for (p2, x) in self._eval(v, env, p, fname, depth):
+                        d = dict(acc)
+                        d[k.value] = x
+                        nxt.append((p2, d))
+                res = nxt
+            return [(p, Record(d)) for (p, d) in res]
         if isinstance(e, ast.JoinedStr):
             res = [(pc, [])]
             for part in e.values:
